@@ -20,10 +20,36 @@ def run(res, b, tier, seed):
                      src=gen_typed.PRELUDE + "switch 1 {\ncase 1:\n\tprint(1)\n\tbreak\n}\n"))
     rows.append(dict(name="break-in-switch-in-loop", offered="-", ctx="switch", expect=True,
                      src=gen_typed.PRELUDE + "for {\n\tswitch 1 {\n\tcase 1:\n\t\tbreak\n\t}\n\tbreak\n}\n"))
+    # constructs the parser accepts beyond the emitters' discipline (`PT.strict` of Props/C06Sem): verdict unspecified by the
+    # property, but the parser MODEL must agree with the parser on them and the ASTs must satisfy the theorem's conclusion
+    for nm, body in (("string-ordering", 'q := "a" < "b"\nprint(q)\n'), ("app-as-argument", 'print(@echo(@echo("x")))\n'),
+                     ("app-in-value-list", 'q1, q2 := @echo("x"), @echo("y")\nprint(q1, q2)\n'),
+                     ("multi-call-as-app-argument", '@echo(mfn())\n'), ("return-multi-call", 'func rr() (int, int) {\n\treturn mfn()\n}\nprint(1)\n'),
+                     ("app-in-slice-literal", 'q := []string{@echo("x")}\n'), ("app-as-condition", 'if @true() {\n}\n'),
+                     ("app-compared", 'q := @echo("x") == "x"\n'), ("app-var-reused", 'q1, q2 := @a(), @b()\nq1 = "s"\n'),
+                     ("app-var-assigned-app", 'q1, q2 := @a(), @b()\nq1, q2 = @c(), @d()\nprint(q1)\n'),
+                     ("void-call-in-print", 'print(vfn())\n'), ("void-call-as-app-argument", '@echo(vfn())\n')):
+        rows.append(dict(name="beyond-" + nm, offered="-", ctx="top", expect=None, src=gen_typed.PRELUDE + body))
     cases = [pipeline.Case("t%d" % i, {"main.tsh": r["src"].encode()}, meta=r) for i, r in enumerate(rows)]
     pipeline.run_pipe(b, cases, "asw")
     pipeline.model_parse(b, cases)
+    # the conclusion of the parser theorem (accepted programs satisfy PT.program), evaluated on the ASTs of the REAL parser
+    with_ast = [c for c in cases if c.out.get("AST", ("", ""))[0] == "OK"]
+    pt_answers = pipeline.model_lines(b, ["PTCHECK " + c.out["AST"][1] for c in with_ast])
+    pt_stats = dict(asts=len(with_ast), parser_typed=0, strict=0, emitter_typed=0)
     dis, fails = [], []
+    for c, a in zip(with_ast, pt_answers):
+        f = a.split(" ")
+        if len(f) != 4 or f[0] != "PT":
+            fails.append((c, "ptcheck-failed", a[:200]))
+            continue
+        pt_stats["parser_typed"] += f[1] == "1"
+        pt_stats["strict"] += f[2] == "1"
+        pt_stats["emitter_typed"] += f[3] == "1"
+        if f[1] != "1":
+            fails.append((c, "accepted-ast-not-parser-typed", "the AST the parser returned violates PT.program (conclusion of C06.accepted_programs_are_typed)"))
+        elif f[2] == "1" and f[3] != "1":
+            fails.append((c, "strict-ast-not-typed", "PT.program and PT.strictSs hold but typedProgram does not (contradicts C06.parser_typed_and_strict_is_typed)"))
     verdicts = dict(accept=0, reject=0, unspecified=0)
     per_pos = {}
     for c in cases:
@@ -59,6 +85,7 @@ def run(res, b, tier, seed):
              "distinct = distinct (position, offered type, context) triples" % len(per_pos),
         samples=[dict(position=c.meta["name"], offered=c.meta["offered"], ctx=c.meta["ctx"], expect=c.meta["expect"], src=c.meta["src"][len(gen_typed.PRELUDE):]) for c in (cases[3], cases[len(cases) // 2], cases[-1])],
         verdicts=verdicts,
+        parser_theorem_on_real_asts=pt_stats,
         correspondence=dict(stage="AST (Model.Parser vs parser.Parse incl. verdict)", compared=len(cases), disagreements=len(dis)),
         oracle_failures=len(fails),
     ))
